@@ -70,11 +70,11 @@ Definition gen_run (input : str) : gen_result :=
   let '(rows, e) := scan_lines input in
   match gen_loop g0 rows with
   | SCont s =>
-      {| gr_done := rev (g_done s);
+      {| gr_done := frev (g_done s);
          gr_pending := match g_cur s with Some (t, _) => Some t | None => None end;
          gr_end := match e with ScanEOF => Ok tt | ScanTooLong => Err ETooLong end |}
   | SErr s er =>
-      {| gr_done := rev (g_done s);
+      {| gr_done := frev (g_done s);
          gr_pending := match g_cur s with Some (t, _) => Some t | None => None end;
          gr_end := Err er |}
   | SPanic => {| gr_done := []; gr_pending := None; gr_end := Panic |}
